@@ -62,136 +62,131 @@ def run(repo: Repo, chk: Check) -> None:
 
 # ------------------------------------------------------------------------- O1
 def relay(repo: Repo, chk: Check, f: Func) -> None:
+    """The bind conversation, decided on path summaries of bind() (every path, the handshake loop taken 0, 1 and 2 times):
+    without authentication one Bind without trailer is sent and its BindAck returned; with authentication the calls are
+    step() -> _create_bind(contexts, that trailer) -> _send_pdu(.., BindAck) -> _process_bind_ack(ack, contexts), then per
+    leg, only while the context is incomplete: step(token of the previous reply) -> _create_alter_context(accepted
+    contexts, that trailer) -> _send_pdu(.., AlterContextResponse) -> _process_bind_ack(reply, accepted contexts); a step
+    result is dropped unsent only when it carries no token; the BindAck is returned."""
+    from sa.pathsum import Summary
+
+    from .util import args_of
+
     chk.analysed(f)
-    g = build(f.node)
-    rd = ReachingDefs(f, g)
-    # all step sites: assignments  X = self._auth.step(...)
-    steps: t.List[t.Tuple[ast.Assign, t.List[ast.expr]]] = []
-    sends: t.List[t.Tuple[ast.Assign, t.List[ast.expr]]] = []
-    for n in body_nodes(f.node):
-        if isinstance(n, ast.Assign):
-            c = call_of(n.value)
-            if c and c[0] == "self._auth.step":
-                steps.append((n, c[1]))
-            if c and c[0] == "self._send_pdu":
-                sends.append((n, c[1]))
-    chk.count("step sites", len(steps))
-    loops = [n for n in body_nodes(f.node) if isinstance(n, ast.While)]
-    if len(steps) != 2 or len(loops) != 1 or len(sends) != 2:
-        raise AnalysisError(f"{f.qual}: expected two step sites, two _send_pdu sites and one handshake loop (found {len(steps)}, {len(sends)}, {len(loops)})")
-    loop = loops[0]
-    first = [s for s in steps if not any(x is s[0] for x in ast.walk(loop))]
-    inloop = [s for s in steps if any(x is s[0] for x in ast.walk(loop))]
-    if len(first) != 1 or len(inloop) != 1:
-        raise AnalysisError(f"{f.qual}: step sites are not one before and one inside the loop")
+    summ = Summary(f, loop_bound=3, prune=True)
+    n_auth = n_plain = 0
+    nsteps_max = 0
+    problems: t.Dict[str, t.Tuple[t.Optional[ast.AST], str]] = {}
 
-    def creator_of_send(send: ast.Assign, creator: str) -> t.Optional[ast.Call]:
-        c = call_of(send.value)
-        assert c is not None
-        pdu = c[1][0] if c[1] else None
-        if pdu is None:
-            return None
-        for val, idx in rd.origin(pdu, send):
-            cc = call_of(val)
-            if cc and cc[0] == creator:
-                return cc[3]
-        return None
+    def note(key: str, node: t.Optional[ast.AST], msg: str) -> None:
+        problems.setdefault(key, (node, msg))
 
-    # ---- first leg: step() -> _create_bind(contexts, trailer) -> _send_pdu(bind, BindAck)
-    st1, args1 = first[0]
-    ok = not args1
-    chk.ob("O1", Site.of(f, st1), ok, "first step() takes no input token" if ok else f"first step receives {unparse(args1[0])}")
-    send1 = [s for s in sends if not any(x is s[0] for x in ast.walk(loop))]
-    send2 = [s for s in sends if any(x is s[0] for x in ast.walk(loop))]
-    if len(send1) != 1 or len(send2) != 1:
-        raise AnalysisError(f"{f.qual}: _send_pdu sites are not one before and one inside the loop")
-    cb = creator_of_send(send1[0][0], "self._create_bind")
-    okb = cb is not None and len(cb.args) == 2
-    site = Site.of(f, send1[0][0])
-    chk.ob("O1", site, bool(okb), "the PDU sent first is the result of _create_bind" if okb else "the first _send_pdu does not send the _create_bind(...) result")
-    if okb and cb is not None:
-        srcs = rd.origin(cb.args[1], cb)
-        # trailer: the step result when authenticating (or None when not)
-        vals = [call_of(v) for v, _ in srcs]
-        from_step = [v for v in vals if v and v[0] == "self._auth.step"]
-        others = [unparse(v) for (v, _), c in zip(srcs, vals) if not c]
-        okt = len(from_step) == 1 and from_step[0][3] is call_of(st1.value)[3] and all(o == "None" for o in others)  # type: ignore[index]
-        chk.ob("O1", site, okt, "Bind carries the first step() trailer (None without authentication)" if okt else f"Bind sec_trailer comes from {[unparse(v) for v, _ in srcs]}, not from the first step()")
-        okc = unparse(cb.args[0]) == "contexts"
-        chk.ob("O1", site, okc, "Bind offers the caller's contexts" if okc else f"Bind offers {unparse(cb.args[0])}")
-    ty1 = send1[0][1][1] if len(send1[0][1]) > 1 else None
-    chk.ob("O1", site, ty1 is not None and unparse(ty1) == "BindAck", "expects BindAck")
-    # ---- process_bind_ack on the bind_ack
-    pba = [n for n in body_nodes(f.node) if isinstance(n, ast.Assign) and (call_of(n.value) or ("",))[0] == "self._process_bind_ack"]
-    pba_out = [n for n in pba if not any(x is n for x in ast.walk(loop))]
-    pba_in = [n for n in pba if any(x is n for x in ast.walk(loop))]
-    if len(pba_out) != 1 or len(pba_in) != 1:
-        raise AnalysisError(f"{f.qual}: _process_bind_ack sites are not one before and one inside the loop")
-    c0 = call_of(pba_out[0].value)
-    assert c0 is not None
-    ack_name = unparse(send1[0][0].targets[0])
-    ok0 = len(c0[1]) == 2 and unparse(c0[1][0]) == ack_name and unparse(c0[1][1]) == "contexts"
-    chk.ob("O1", Site.of(f, pba_out[0]), ok0, "accepted contexts and server token taken from the bind_ack" if ok0 else f"_process_bind_ack({', '.join(map(unparse, c0[1]))}) is not applied to the bind_ack and the offered contexts")
-    tgt0 = pba_out[0].targets[0]
-    if not (isinstance(tgt0, ast.Tuple) and len(tgt0.elts) == 2 and all(isinstance(e, ast.Name) for e in tgt0.elts)):
-        raise AnalysisError(f"{f.qual}: _process_bind_ack result is not unpacked into (contexts, token)")
-    final_ctx, tok = tgt0.elts[0].id, tgt0.elts[1].id  # type: ignore[attr-defined]
-    # ---- loop guard: every step in the loop runs only while the context is incomplete
-    st2, args2 = inloop[0]
-    nid2 = g.first_of_stmt.get(st2)
-    guards = g.guards_of(nid2) if nid2 is not None else []
-    okg = any(unparse(c) == "self._auth.complete" and pol is False for c, pol in guards)
-    chk.ob("O1", Site.of(f, loop.test), okg, "step() is only reached while self._auth.complete is false" if okg else f"loop condition '{unparse(loop.test)}' lets step() run although the security context is complete")
-    # ---- token fed to the step: in_token or b"" with in_token from _process_bind_ack of the previous reply
-    a = args2[0] if args2 else None
-    tokname = None
-    if isinstance(a, ast.BoolOp) and isinstance(a.op, ast.Or) and isinstance(a.values[0], ast.Name) and unparse(a.values[1]) == "b''":
-        tokname = a.values[0].id
-    elif isinstance(a, ast.Name):
-        tokname = a.id
-    site2 = Site.of(f, st2)
-    if tokname is None:
-        chk.ob("O1", site2, False, f"the token given to step() is {unparse(a) if a is not None else 'missing'}, not the server's previous token")
-    else:
-        ds = rd.reaching(tokname, st2)
-        want = {id(pba_out[0]), id(pba_in[0])}
-        got = {id(d.stmt) for d in ds}
-        okd = got == want and all(d.index == 1 for d in ds)
-        chk.ob("O1", site2, okd, "step(k+1) consumes the token _process_bind_ack took from reply k" if okd else f"the token given to step() has definitions {[unparse(d.stmt)[:60] for d in ds]}: a stale or foreign token can be fed back")
-    # ---- each loop step result is sent (unless empty) before the next step
-    ca = creator_of_send(send2[0][0], "self._create_alter_context")
-    oka = ca is not None and len(ca.args) == 2
-    site3 = Site.of(f, send2[0][0])
-    chk.ob("O1", site3, bool(oka), "each further leg is sent as the result of _create_alter_context" if oka else "the _send_pdu inside the loop does not send the _create_alter_context(...) result")
-    if oka and ca is not None:
-        srcs = rd.origin(ca.args[1], ca)
-        okt = len(srcs) == 1 and call_of(srcs[0][0]) is not None and call_of(srcs[0][0])[3] is call_of(st2.value)[3]  # type: ignore[index]
-        chk.ob("O1", site3, okt, "alter_context carries this iteration's step() trailer" if okt else f"alter_context sec_trailer comes from {[unparse(v) for v, _ in srcs]}")
-        ds = rd.reaching(unparse(ca.args[0]), ca) if isinstance(ca.args[0], ast.Name) else []
-        okf = isinstance(ca.args[0], ast.Name) and ca.args[0].id == final_ctx and len(ds) == 1 and ds[0].stmt is pba_out[0] and ds[0].index == 0
-        chk.ob("O1", site3, okf, "alter_context carries only the contexts the server accepted" if okf else f"alter_context offers {unparse(ca.args[0])}, not the accepted contexts returned by _process_bind_ack(bind_ack, contexts)")
-    ty2 = send2[0][1][1] if len(send2[0][1]) > 1 else None
-    chk.ob("O1", site3, ty2 is not None and unparse(ty2) == "AlterContextResponse", "expects AlterContextResponse")
-    # order inside the loop body: step -> (empty token => break) -> send -> process_bind_ack(reply)
-    nid_send = g.first_of_stmt.get(send2[0][0])
-    nid_pba = g.first_of_stmt.get(pba_in[0])
-    oko = nid2 is not None and nid_send is not None and nid_pba is not None and g.dominates(nid2, nid_send) and g.dominates(nid_send, nid_pba)
-    chk.ob("O1", site3, oko, "step dominates send dominates reply processing" if oko else "inside the loop the order step -> send -> process reply is not enforced on every path")
-    # paths from the step that avoid the send must go through the empty-token break
-    if nid2 is not None and nid_send is not None:
-        bad = _paths_avoiding(g, nid2, nid_send, f, unparse(st2.targets[0]))
-        chk.ob("O1", site2, not bad, "a non-empty token is always sent; only an empty token leaves the loop" if not bad else f"a step() result can be dropped without being sent: {bad}")
-    c1 = call_of(pba_in[0].value)
-    assert c1 is not None
-    resp_name = unparse(send2[0][0].targets[0])
-    ok1 = len(c1[1]) == 2 and unparse(c1[1][0]) == resp_name and unparse(c1[1][1]) == final_ctx
-    tgt1 = pba_in[0].targets[0]
-    ok1 = ok1 and isinstance(tgt1, ast.Tuple) and len(tgt1.elts) == 2 and unparse(tgt1.elts[1]) == tok
-    chk.ob("O1", Site.of(f, pba_in[0]), ok1, "next token taken from this iteration's reply" if ok1 else f"{unparse(pba_in[0])}: the next token is not taken from the reply to this leg")
-    # ---- returns the bind_ack
-    for r in [n for n in body_nodes(f.node) if isinstance(n, ast.Return)]:
-        okr = r.value is not None and unparse(r.value) == ack_name
-        chk.ob("O1", Site.of(f, r), okr, "returns the BindAck" if okr else f"returns {unparse(r.value)}")
+    def functext(ps: t.Any, e: t.Any) -> str:
+        return ps.text(t.cast(ast.Call, e.tree).func)
+
+    for ps in summ.returning():
+        facts = ps.facts()
+        evs = [e for e in ps.events if e.kind == "call"]
+        order = {id(e): i for i, e in enumerate(ps.events)}
+        steps: t.List[t.Tuple[t.Any, t.List[ast.expr]]] = []
+        for e in evs:
+            c = t.cast(ast.Call, e.tree)
+            ft = functext(ps, e)
+            if ft == "self._auth.step":
+                steps.append((e, list(c.args)))
+            elif ft.endswith("._wrap_sync") and c.args and ps.text(c.args[0]) == "self._auth.step":
+                steps.append((e, list(c.args[1:])))
+        binds = [e for e in evs if functext(ps, e) == "self._create_bind"]
+        alters = [e for e in evs if functext(ps, e) == "self._create_alter_context"]
+        sends = [e for e in evs if functext(ps, e) == "self._send_pdu"]
+        pbas = [e for e in evs if functext(ps, e) == "self._process_bind_ack"]
+        site_r = ps.exit_node
+        if "not (self._auth)" in facts or ("self._auth" not in facts and not steps):
+            n_plain += 1
+            ok = len(binds) == 1 and len(sends) == 1 and not steps and not alters
+            if ok:
+                ba = args_of(repo, f, t.cast(ast.Call, binds[0].tree))
+                tr = ba.get("sec_trailer")
+                ok = ps.text(ba.get("contexts")) == "contexts" and (tr is None or ps.text(tr) == "None")
+                sa_ = t.cast(ast.Call, sends[0].tree).args
+                ok = ok and len(sa_) >= 2 and ps.key(sa_[0]) == ps.key(binds[0].tree) and ps.text(sa_[1]) == "BindAck" and ps.key(ps.value) == ps.key(sends[0].tree)
+            if not ok:
+                note("plain", site_r, "without authentication bind() does not send one Bind(contexts, no trailer) and return its BindAck")
+            continue
+        n_auth += 1
+        nsteps_max = max(nsteps_max, len(steps))
+        if len(steps) < 1 or len(binds) != 1 or len(sends) < 1 or len(pbas) < 1:
+            note("shape", site_r, f"an authenticated bind path has {len(steps)} step, {len(binds)} _create_bind, {len(sends)} _send_pdu, {len(pbas)} _process_bind_ack call(s)")
+            continue
+        st0, a0 = steps[0]
+        if a0:
+            note("first", st0.node, f"first step receives {ps.text(a0[0])}")
+        ba = args_of(repo, f, t.cast(ast.Call, binds[0].tree))
+        if not (ba.get("sec_trailer") is not None and ps.key(ba["sec_trailer"]) == ps.key(st0.tree)):
+            note("bind-trailer", binds[0].node, f"Bind sec_trailer is {ps.text(ba.get('sec_trailer'))}, not the first step() result")
+        if ps.text(ba.get("contexts")) != "contexts":
+            note("bind-ctx", binds[0].node, f"Bind offers {ps.text(ba.get('contexts'))}")
+        s0 = sends[0]
+        s0a = t.cast(ast.Call, s0.tree).args
+        if not (len(s0a) >= 2 and ps.key(s0a[0]) == ps.key(binds[0].tree) and ps.text(s0a[1]) == "BindAck"):
+            note("send0", s0.node, "the first _send_pdu does not send the _create_bind(...) result expecting a BindAck")
+        p0 = pbas[0]
+        p0a = t.cast(ast.Call, p0.tree).args
+        if not (len(p0a) == 2 and ps.key(p0a[0]) == ps.key(s0.tree) and ps.text(p0a[1]) == "contexts"):
+            note("pba0", p0.node, f"_process_bind_ack({', '.join(ps.text(x) for x in p0a)}) is not applied to the bind_ack and the offered contexts")
+        if not (order[id(st0)] < order[id(binds[0])] < order[id(s0)] < order[id(p0)]):
+            note("order0", s0.node, "first leg is not step -> _create_bind -> _send_pdu -> _process_bind_ack")
+        accepted = ps.key(p0.tree) + "[0]"
+        prev = p0
+        ai = si = pi = 1  # next alter / send / process events to consume
+        alt_i = 0
+        for k, (st, a) in enumerate(steps[1:], start=1):
+            # only while the context is incomplete
+            before = [(ps.text(e_), pol) for e_, pol in ps.atoms(before=st)]
+            if ("self._auth.complete", False) not in before:
+                note("complete", st.node, "step() is reached although no test found the security context incomplete")
+            tok = a[0] if a else None
+            want = ps.key(prev.tree) + "[1]"
+            got = ps.key(tok) if tok is not None else ""
+            if got not in (want, f"{want} or b''", f"({want}) or b''"):
+                note("token", st.node, f"step {k + 1} receives {ps.text(tok) if tok is not None else 'nothing'}, not the token _process_bind_ack took from the previous reply: a stale or foreign token can be fed back")
+            # is this step's trailer sent?
+            nxt_alt = alters[alt_i] if alt_i < len(alters) else None
+            later_step = steps[k + 1][0] if k + 1 < len(steps) else None
+            sent = nxt_alt is not None and (later_step is None or order[id(nxt_alt)] < order[id(later_step)]) and order[id(nxt_alt)] > order[id(st)]
+            if not sent:
+                empty = any(ps.key(e_) == ps.key(st.tree) + ".auth_value" and pol is False for e_, pol in ps.atoms())
+                if not empty:
+                    note("dropped", st.node, "a step() result can be dropped without being sent although it carries a token")
+                continue
+            alt_i += 1
+            aa = args_of(repo, f, t.cast(ast.Call, nxt_alt.tree))
+            if not (aa.get("sec_trailer") is not None and ps.key(aa["sec_trailer"]) == ps.key(st.tree)):
+                note("alter-trailer", nxt_alt.node, f"alter_context sec_trailer is {ps.text(aa.get('sec_trailer'))}, not this leg's step() result")
+            if ps.key(aa.get("contexts")) != accepted:
+                note("alter-ctx", nxt_alt.node, f"alter_context offers {ps.text(aa.get('contexts'))}, not the accepted contexts returned by _process_bind_ack(bind_ack, contexts)")
+            snd = next((e for e in sends if order[id(e)] > order[id(nxt_alt)]), None)
+            if snd is None or not (len(t.cast(ast.Call, snd.tree).args) >= 2 and ps.key(t.cast(ast.Call, snd.tree).args[0]) == ps.key(nxt_alt.tree) and ps.text(t.cast(ast.Call, snd.tree).args[1]) == "AlterContextResponse"):
+                note("send-k", nxt_alt.node, "the alter_context is not sent with _send_pdu expecting an AlterContextResponse")
+                continue
+            pk = next((e for e in pbas if order[id(e)] > order[id(snd)]), None)
+            pka = t.cast(ast.Call, pk.tree).args if pk is not None else []
+            if pk is None or not (len(pka) == 2 and ps.key(pka[0]) == ps.key(snd.tree) and ps.key(pka[1]) == accepted):
+                note("pba-k", snd.node, "the reply to this leg is not processed by _process_bind_ack(reply, accepted contexts): the next token is not taken from it")
+                continue
+            if later_step is not None and not order[id(pk)] < order[id(later_step)]:
+                note("order-k", snd.node, "inside the loop the order step -> send -> process reply is not kept")
+            prev = pk
+        if ps.key(ps.value) != ps.key(s0.tree):
+            note("ret", site_r, f"returns {ps.text(ps.value)[:60]}, not the BindAck")
+    chk.count("step sites", 2 if nsteps_max >= 2 else nsteps_max)
+    site = Site.of(f, construct=f"{f.name}: bind conversation")
+    if n_auth == 0 or n_plain == 0 or nsteps_max < 3:
+        note("paths", None, f"bind() paths: {n_plain} without authentication, {n_auth} with, at most {nsteps_max} step() calls on a path (the handshake loop must be walkable twice)")
+    for key, (node, msg) in sorted(problems.items()):
+        chk.ob("O1", Site.of(f, node) if node is not None else site, False, msg)
+    if not problems:
+        chk.ob("O1", site, True, f"{n_plain} unauthenticated and {n_auth} authenticated path(s): Bind carries the first step() trailer and the caller's contexts; each further leg feeds the previous reply's token to step(), sends its trailer with the accepted contexts and processes the reply; only a token-less step result is not sent; the BindAck is returned")
 
 
 def _paths_avoiding(g: CFG, src: int, must: int, f: Func, trailer_var: str) -> str:
